@@ -25,14 +25,18 @@ func NewVerifPodGroupManager(handle fwktype.Handle, cacheHandle fwktype.Handle, 
 	}
 }
 
-func (pgMgr *PodGroupManager) VerifOnPodAdd(obj interface{})            { pgMgr.cache.onPodAdd(obj) }
-func (pgMgr *PodGroupManager) VerifOnPodUpdate(oldObj, newObj interface{}) { pgMgr.cache.onPodUpdate(oldObj, newObj) }
-func (pgMgr *PodGroupManager) VerifOnPodDelete(obj interface{})         { pgMgr.cache.onPodDelete(obj) }
-func (pgMgr *PodGroupManager) VerifOnPodGroupAdd(obj interface{})       { pgMgr.cache.onPodGroupAdd(obj) }
+func (pgMgr *PodGroupManager) VerifOnPodAdd(obj interface{}) { pgMgr.cache.onPodAdd(obj) }
+func (pgMgr *PodGroupManager) VerifOnPodUpdate(oldObj, newObj interface{}) {
+	pgMgr.cache.onPodUpdate(oldObj, newObj)
+}
+func (pgMgr *PodGroupManager) VerifOnPodDelete(obj interface{})   { pgMgr.cache.onPodDelete(obj) }
+func (pgMgr *PodGroupManager) VerifOnPodGroupAdd(obj interface{}) { pgMgr.cache.onPodGroupAdd(obj) }
 func (pgMgr *PodGroupManager) VerifOnPodGroupUpdate(oldObj, newObj interface{}) {
 	pgMgr.cache.onPodGroupUpdate(oldObj, newObj)
 }
-func (pgMgr *PodGroupManager) VerifOnPodGroupDelete(obj interface{}) { pgMgr.cache.onPodGroupDelete(obj) }
+func (pgMgr *PodGroupManager) VerifOnPodGroupDelete(obj interface{}) {
+	pgMgr.cache.onPodGroupDelete(obj)
+}
 
 // VerifSchedulingContext reports the gang group currently drained by NextPod ("" when none).
 func (pgMgr *PodGroupManager) VerifSchedulingContext() (gangGroupID string, failed bool) {
